@@ -488,6 +488,55 @@ theorem compExch_trial_heap (sim : Sim) (he : sim.ens = .grand) (rs : List Nat) 
         · rw [if_neg hc, if_neg hc]
           exact ⟨hk, hdl, hl⟩
 
+/-- **composite_insertion_labels** — "the atoms of one inserted particle share one label and distinct particles have distinct
+    labels", for composite moves: after an ACCEPTED composite insertion every label-bearing move of the table without a
+    configured label has its old labels followed by `n₁` times `fresh`, `n₂` times `fresh + 1`, … for the particles the trial
+    inserted (sizes `n₁ … n_k`, all positive, at least one), `fresh` being the move's next free label. -/
+theorem composite_insertion_labels (sim : Sim) (he : sim.ens = .grand) (rs : List Nat) (b : Nat) (s : State)
+    (h : GInv sim s) (hadd : s.inp.draw.1 < b) (hacc : (trial sim (.compExch rs b) true s).1 = .accepted)
+    (r : Nat) (hr : r ∈ tableRefs sim) (hlt : r < s.heap.length) (hlb : labelBearing (s.obj r).kind = true)
+    (hd : (s.obj r).defaultLabel = none) :
+    ∃ sizes : List Nat, sizes ≠ [] ∧ (∀ n ∈ sizes, 0 < n) ∧
+      ((trial sim (.compExch rs b) true s).2.obj r).labels
+        = (s.obj r).labels ++ partLabels (newLabel (s.obj r).labels none) sizes := by
+  obtain ⟨K', hK, hle, _, _, hheap, hok, _⟩ := compExch_insertion_call rs b s h.invg h.templ hadd
+  obtain ⟨_, f2, _, _, _, _⟩ := addInv_fields _ _ _ _ hK
+  have hcall : (callTree (.compExch rs b) s).1 = true := ((trial_accepted_iff sim _ true s).1 hacc).2
+  have htr : (trial sim (.compExch rs b) true s).2 = saveState sim (callTree (.compExch rs b) s).2 := by
+    rw [trial_eq, hcall]; rfl
+  rw [htr]
+  have hins : 0 < compExchInserted rs s := hok.1 hcall
+  generalize callTree (.compExch rs b) s = res at *
+  have hsum : res.2.ctx.addedSizes.sum = res.2.ctx.addedIdx.length := by
+    rw [hK.sizesSum, h.invg.noSizes, hK.added]; simp
+  have hpos : ∀ n ∈ res.2.ctx.addedSizes, 0 < n := by
+    intro n hn
+    rcases hK.sizesPos n hn with h1 | h1
+    · rw [h.invg.noSizes] at h1; cases h1
+    · exact h1
+  have hne : res.2.ctx.addedSizes ≠ [] := by
+    intro hnil
+    have : res.2.ctx.addedSizes.sum = 0 := by rw [hnil]; rfl
+    rw [hK.sizesSum, h.invg.noSizes] at this
+    simp at this
+    omega
+  have hdel : res.2.ctx.deletedIdx = [] := by rw [f2]; exact h.invg.noDeleted
+  have hsh : (saveState sim res.2).heap =
+      notifyParts (tableRefs sim) res.2.ctx.addedSizes res.2.ctx.addedIdx [] res.2.heap := by
+    simp [saveState, he, ctxSave, tableRefs, hdel]
+  have hnd : (tableRefs sim).Nodup := nodup_eraseDups' _
+  have hst := hheap.2 r
+  have hk1 : (res.2.heap.getD r { kind := .user }).kind = (s.obj r).kind := hst.1
+  have hl1 : (res.2.heap.getD r { kind := .user }).labels = (s.obj r).labels := hst.2.1
+  have hd1 : (res.2.heap.getD r { kind := .user }).defaultLabel = (s.obj r).defaultLabel := hst.2.2
+  refine ⟨res.2.ctx.addedSizes, hne, hpos, ?_⟩
+  have hobj : (saveState sim res.2).obj r =
+      (notifyParts (tableRefs sim) res.2.ctx.addedSizes res.2.ctx.addedIdx [] res.2.heap).getD r { kind := .user } := by
+    simp [State.obj, hsh]
+  rw [hobj, notifyParts_spec _ _ _ _ _ hnd r, hheap.1, hk1]
+  simp only [hr, hlt, hlb, and_self, if_true]
+  rw [onPartsObj_insert_labels _ (by rw [hd1, hd]) _ _ hne hpos hsum, hl1]
+
 /-- the members of a composite exchange move: exchange moves of the table that share one labelling and one
     configured label -/
 structure CompMembers (sim : Sim) (s : State) (rs : List Nat) : Prop where
@@ -691,6 +740,14 @@ example : c5xIns.inp.draw.1 < 500 ∧
       [[0, 1, 2, 3, 4], [0, 1, 2, 3, 4], [7, 7, -1, 8, 9]] ∧
     (trial c5xSim (.compExch [0, 1] 500) true c5xIns).2.ctx.nExch = 5 ∧
     (trial c5xSim (.compExch [0, 1] 500) true c5xIns).2.ctx.delta = 0 := by decide
+
+-- `composite_insertion_labels` on that trial: its hypotheses are met, and the sizes it speaks of are 1 and 1
+example : ∃ sizes : List Nat, sizes ≠ [] ∧ (∀ n ∈ sizes, 0 < n) ∧
+    ((trial c5xSim (.compExch [0, 1] 500) true c5xIns).2.obj 0).labels
+      = (c5xIns.obj 0).labels ++ partLabels (newLabel (c5xIns.obj 0).labels none) sizes :=
+  composite_insertion_labels c5xSim rfl [0, 1] 500 c5xIns (c5x_ginv _) (by decide) (by decide) 0 (by decide) (by decide)
+    (by decide) (by decide)
+example : partLabels 3 [1, 1] = [3, 4] ∧ partLabels 3 [2, 1, 3] = [3, 3, 4, 5, 5, 5] := by decide
 
 -- the general theorems instantiated on the two concrete trials
 example : GInv c5xSim (trial c5xSim (.compExch [0, 1] 500) true c5xDel).2 :=
